@@ -8,7 +8,7 @@
 (*        residual is orthogonal (stacked-parameter metric) to every direction of the constraint.*)
 EXTENDS QProj, QObjects, TLC, Json
 
-CONSTANTS Ns, GridNum, GridDen, NObjs, Emit
+CONSTANTS Ns, GridNum, GridDen, NObjs, Dims, Emit
 QuickGrid == {-3, -1, 0, 1, 2, 4}
 ThoroughGrid == {-4, -3, -2, -1, 0, 1, 2, 3, 4}
 
@@ -16,24 +16,25 @@ VARIABLES phase, u, obj
 vars == <<phase, u, obj>>
 
 GridVals == {R(g, GridDen) : g \in GridNum}
-\* a deterministic family of rational test objects (1 qubit), indexed by k; every third one already satisfies the constraint
+\* a deterministic family of rational test objects, indexed by k and the dimension; every third one already satisfies the constraint
 Val(k, a, b) == R(((k * 7 + a * 3 + b * 5 + a * b) % 9) - 4, 1 + (k % 3))
-MkState(k) == [a \in 1..4 |-> Val(k, a, 0)]
-MkPovm(k, m) == [x \in 1..m |-> [a \in 1..4 |-> Val(k + x, a, x)]]
-MkGate(k) == [a \in 1..4 |-> [b \in 1..4 |-> Val(k, a, b)]]
-MkMProcess(k, m) == [x \in 1..m |-> [a \in 1..4 |-> [b \in 1..4 |-> Val(k + 2 * x, a, b)]]]
-Raw(k) == CASE k % 4 = 0 -> [type |-> "state", v |-> MkState(k)]
-            [] k % 4 = 1 -> [type |-> "povm", v |-> MkPovm(k, 2 + (k % 3))]
-            [] k % 4 = 2 -> [type |-> "gate", v |-> MkGate(k)]
-            [] k % 4 = 3 -> [type |-> "mprocess", v |-> MkMProcess(k, 2 + (k % 3))]      \* 2, 3 or 4 outcomes (4: also laid out as a 2 x 2 grid)
-ProjEq(o) == CASE o.type = "state" -> [o EXCEPT !.v = EqStateH(o.v, 2)]
+MkState(k, n) == [a \in 1..n |-> Val(k, a, 0)]
+MkPovm(k, m, n) == [x \in 1..m |-> [a \in 1..n |-> Val(k + x, a, x)]]
+MkGate(k, n) == [a \in 1..n |-> [b \in 1..n |-> Val(k, a, b)]]
+MkMProcess(k, m, n) == [x \in 1..m |-> [a \in 1..n |-> [b \in 1..n |-> Val(k + 2 * x, a, b)]]]
+\* d = dimension of the system (2: one qubit, 3: one qutrit, 4: two qubits); d * d coordinates
+Raw(k, d) == CASE k % 4 = 0 -> [type |-> "state", d |-> d, v |-> MkState(k, d * d)]
+              [] k % 4 = 1 -> [type |-> "povm", d |-> d, v |-> MkPovm(k, 2 + (k % 3), d * d)]
+              [] k % 4 = 2 -> [type |-> "gate", d |-> d, v |-> MkGate(k, d * d)]
+              [] k % 4 = 3 -> [type |-> "mprocess", d |-> d, v |-> MkMProcess(k, 2 + (k % 3), d * d)]      \* 2, 3 or 4 outcomes (4: also laid out as a 2 x 2 grid)
+ProjEq(o) == CASE o.type = "state" -> [o EXCEPT !.v = EqStateH(o.v, o.d)]
                [] o.type = "povm" -> [o EXCEPT !.v = EqPovmH(o.v)]
                [] o.type = "gate" -> [o EXCEPT !.v = EqGateH(o.v)]
                [] o.type = "mprocess" -> [o EXCEPT !.v = EqMProcessH(o.v)]
-Obj(k) == IF k % 3 = 0 THEN ProjEq(Raw(k)) ELSE Raw(k)       \* every third object is feasible already
+Obj(k, d) == IF k % 3 = 0 THEN ProjEq(Raw(k, d)) ELSE Raw(k, d)       \* every third object is feasible already
 
-Init == \/ phase = "ineq" /\ obj = [type |-> "none", v |-> <<>>] /\ \E n \in Ns : u \in [1..n -> GridVals]
-        \/ phase = "eq" /\ u = <<>> /\ \E k \in 1..NObjs : obj = Obj(k)
+Init == \/ phase = "ineq" /\ obj = [type |-> "none", d |-> 0, v |-> <<>>] /\ \E n \in Ns : u \in [1..n -> GridVals]
+        \/ phase = "eq" /\ u = <<>> /\ \E k \in 1..NObjs, d \in Dims : obj = Obj(k, d)
 Next == UNCHANGED vars /\ FALSE
 Spec == Init /\ [][Next]_vars
 
@@ -46,10 +47,10 @@ IneqNearest == phase = "ineq" =>
 
 \* ---------------------------------------------------------------- equality (H-coordinates)
 EqFeasibleObj(o) ==
-    CASE o.type = "state" -> TraceH(o.v, 2) = ROne
+    CASE o.type = "state" -> TraceH(o.v, o.d) = ROne
       [] o.type = "povm" -> IsPovmSumH(o.v)
       [] o.type = "gate" -> IsTPH(o.v)
-      [] o.type = "mprocess" -> IsTPH(SumMatsR(o.v, 4))
+      [] o.type = "mprocess" -> IsTPH(SumMatsR(o.v, o.d * o.d))
 EqFeasible == phase = "eq" => EqFeasibleObj(ProjEq(obj))
 EqIdempotent == phase = "eq" => ProjEq(ProjEq(obj)) = ProjEq(obj)
 EqFixedIffFeasible == phase = "eq" => ((ProjEq(obj) = obj) <=> EqFeasibleObj(obj))
@@ -61,17 +62,21 @@ FlatObj(o) == CASE o.type = "state" -> o.v
                 [] o.type = "gate" -> Flatten(o.v)
                 [] o.type = "mprocess" -> ConcatAll([x \in 1..Len(o.v) |-> Flatten(o.v[x])])
 Residual(o) == VSub(FlatObj(o), FlatObj(ProjEq(o)))
+\* directions are sparse: +1 at `plus`, -1 at `minus` (0: none); <r, dir> = r[plus] - r[minus]
 Directions(o) ==
-    CASE o.type = "state" -> {VUnit(4, a) : a \in 2..4}
+    LET n == o.d * o.d IN
+    CASE o.type = "state" -> {[plus |-> a, minus |-> 0] : a \in 2..n}
       [] o.type = "povm" -> LET m == Len(o.v) IN
-            {[i \in 1..(4 * m) |-> IF i = (x - 1) * 4 + a THEN ROne ELSE IF i = x * 4 + a THEN RI(-1) ELSE RZero] : x \in 1..(m - 1), a \in 1..4}
-      [] o.type = "gate" -> {VUnit(16, i) : i \in 5..16}
+            {[plus |-> (x - 1) * n + a, minus |-> x * n + a] : x \in 1..(m - 1), a \in 1..n}
+      [] o.type = "gate" -> {[plus |-> i, minus |-> 0] : i \in (n + 1)..(n * n)}
       [] o.type = "mprocess" -> LET m == Len(o.v) IN
-            {VUnit(16 * m, (x - 1) * 16 + i) : x \in 1..m, i \in 5..16}
-            \cup {[i \in 1..(16 * m) |-> IF i = (x - 1) * 16 + b THEN ROne ELSE IF i = x * 16 + b THEN RI(-1) ELSE RZero] : x \in 1..(m - 1), b \in 1..4}
-EqResidualOrthogonal == phase = "eq" => \A dir \in Directions(obj) : Dot(Residual(obj), dir) = RZero
+            {[plus |-> (x - 1) * n * n + i, minus |-> 0] : x \in 1..m, i \in (n + 1)..(n * n)}
+            \cup {[plus |-> (x - 1) * n * n + b, minus |-> x * n * n + b] : x \in 1..(m - 1), b \in 1..n}
+SparseDot(r, dir) == IF dir.minus = 0 THEN r[dir.plus] ELSE RSub(r[dir.plus], r[dir.minus])
+ResidualOrthogonal(o) == LET r == TLCEval(Residual(o)) IN \A dir \in Directions(o) : SparseDot(r, dir) = RZero
+EqResidualOrthogonal == phase = "eq" => ResidualOrthogonal(obj)
 
 EmitCase == IF ~Emit THEN TRUE
             ELSE IF phase = "ineq" THEN PrintT(ToJson([kind |-> "ineq", u |-> u, proj |-> ProjIneqV(u), simplex |-> ProjSimplexV(u)]))
-            ELSE PrintT(ToJson([kind |-> "eq", type |-> obj.type, v |-> obj.v, proj |-> ProjEq(obj).v, feasible |-> EqFeasibleObj(obj)]))
+            ELSE PrintT(ToJson([kind |-> "eq", type |-> obj.type, d |-> obj.d, v |-> obj.v, proj |-> ProjEq(obj).v, feasible |-> EqFeasibleObj(obj)]))
 =============================================================================
